@@ -236,7 +236,7 @@ def make_judge(chk: Check):
                 exp = getattr(g.obj, "meta_bases", [])
                 if e["superclasses"] != exp:
                     viols.append(Viol("superclasses", where, {"id": g.id, "json": e["superclasses"], "expected": exp}))
-                chk.case_ok(f"class:{len(exp)}:{len(g.path)}")
+                chk.case_ok(f"class:{len(exp)}:{len(g.path)}", ident=(case.cid, g.id))
             elif kind in ("function", "method", "property", "ctor"):
                 e = ids["functions"].get(g.id)
                 if e is None:
@@ -262,7 +262,7 @@ def make_judge(chk: Check):
                             viols.append(Viol("default-value", f"parameter:{type(want).__name__}", {"id": pe["id"], "json": got, "expected": p.default}))
                 if role in ("inst", "prop", "ctor", "class") and f"{g.id}/{'cls' if role == 'class' else 'self'}" not in ids["parameters"]:
                     viols.append(Viol("missing-entry", "receiver", {"id": g.id}))
-                chk.case_ok(f"function:{role}:{len(params)}")
+                chk.case_ok(f"function:{role}:{len(params)}", ident=(case.cid, g.id))
             elif kind in ("cattr", "iattr"):
                 e = ids["attributes"].get(g.id)
                 if e is None:
@@ -270,7 +270,7 @@ def make_judge(chk: Check):
                     continue
                 if e["is_static"] != (kind == "cattr"):
                     viols.append(Viol("attribute-static-flag", where, {"id": g.id, "json": e["is_static"]}))
-                chk.case_ok(f"attr:{kind}")
+                chk.case_ok(f"attr:{kind}", ident=(case.cid, g.id))
             elif kind == "enum":
                 if g.id not in ids["enums"]:
                     viols.append(Viol("missing-entry", where + (":nested" if len(g.path) > 1 else ""), {"id": g.id}))
